@@ -31,16 +31,6 @@ fn c19_frequency_guards() {
 }
 #[kani::proof]
 #[kani::stub(alloc::fmt::format, stub_format)]
-fn c19_frequency_rate_bounds() {
-    // outside 1..1500 Hz (exact integer comparison of ticks*1000 against ms) nothing is reported
-    let (cv, ct, rv, rt, ms, eff, _b) = any_pair();
-    kani::assume(ms >= 25 && ms <= 600_000 && eff >= 5);
-    let num = eff as u64 * 1000;
-    kani::assume(num < ms || num > 1500 * ms);
-    assert!(calculate_frequency_p0f_style(&ts(cv, ct), &ts(rv, rt)).is_err());
-}
-#[kani::proof]
-#[kani::stub(alloc::fmt::format, stub_format)]
 fn c19_frequency_accepts_steady() {
     // a steady clock inside all bounds is accepted, and the reported rate lies in [1, 1500]
     let (cv, ct, rv, rt, ms, eff, backward) = any_pair();
@@ -50,16 +40,6 @@ fn c19_frequency_accepts_steady() {
     match calculate_frequency_p0f_style(&ts(cv, ct), &ts(rv, rt)) {
         Ok(f) => assert!(f >= 1.0 && f <= 1500.0),
         Err(_) => assert!(false),
-    }
-}
-#[kani::proof]
-#[kani::stub(alloc::fmt::format, stub_format)]
-fn c19_frequency_value() {
-    // the reported rate is ticks * 1000 / ms
-    let (cv, ct, rv, rt, ms, eff, _b) = any_pair();
-    if let Ok(f) = calculate_frequency_p0f_style(&ts(cv, ct), &ts(rv, rt)) {
-        assert!(ms >= 25 && ms <= 600_000 && eff >= 5);
-        assert!(f == (eff as f64 * 1000.0) / (ms as f64));
     }
 }
 #[kani::proof]
@@ -106,23 +86,6 @@ fn c19_guess_frequency_far() {
     let base: f64 = if kani::any() { 1000.0 } else { 100.0 };
     kani::assume(raw.is_finite() && raw >= 1.0 && raw < 0.45 * base);
     assert!(guess_frequency(raw, base, 0.10).is_none());
-}
-
-#[kani::proof]
-fn c19_uptime_decomposition() {
-    let tsv: u32 = kani::any();
-    let hz: u16 = kani::any();
-    kani::assume(hz >= 1 && hz <= 1500);
-    let f = hz as f64;
-    let u = calculate_uptime_from_frequency(tsv, f);
-    assert!(u.hours < 24 && u.min < 60);
-    assert!(u.freq == f);
-    // days / wrap period in whole days, computed in integers
-    let secs = tsv as u64 / hz as u64;
-    let days = (secs / 86_400) as u32;
-    assert!(u.days == days || u.days + 1 == days || u.days == days + 1); // float vs integer division at day boundaries
-    let wrap = ((u32::MAX as u64) / (hz as u64 * 86_400)) as u32;
-    assert!(u.up_mod_days == wrap || u.up_mod_days + 1 == wrap || u.up_mod_days == wrap + 1);
 }
 
 // ---------------------------------------------------------------- tracker state (bounded: 3 calls)
